@@ -22,4 +22,26 @@ Forms == {"sock", "sockWords", "multiaddr", "words", "ipOnly"}
 (* Interop: every form a producer emits is understood (as the same address) by every consumer it is wired to *)
 Interop(wiring, emits, accepts) == \A w \in wiring : emits[w[1]] \subseteq accepts[w[2]]
 Broken(wiring, emits, accepts) == {<<w, f>> \in wiring \X Forms : f \in emits[w[1]] /\ f \notin accepts[w[2]]}
+
+(* ---- the wiring of the code (who hands strings to whom), shared with the acceptor ---- *)
+Producers == {"Display", "SockToString", "FourWords", "ToMultiaddr", "BootEncode"}
+Consumers == {"FromStr", "FromFourWords", "AddNode", "MultiaddrFrom", "Dial", "BootDecode"}
+Wiring == {<<"Display", "FromStr">>, <<"Display", "AddNode">>, <<"Display", "Dial">>,
+           <<"SockToString", "Dial">>, <<"SockToString", "MultiaddrFrom">>, <<"ToMultiaddr", "FromStr">>,
+           <<"FourWords", "FromFourWords">>, <<"FourWords", "FromStr">>, <<"BootEncode", "BootDecode">>}
+(* consumers that are private functions of DhtNetworkManager: what they accept is taken from reading
+   (both strip a " (" suffix and then parse a SocketAddr) *)
+AcceptsByReading == [c \in {"MultiaddrFrom", "Dial"} |-> {"sock", "sockWords"}]
+
+(* ---- description of an address [o1,o2,o3,o4,port] / [g1..g8,port] for violation conditions ---- *)
+V6Class(g) ==
+  IF \A i \in 1..7 : g[i] = 0 THEN (IF g[8] = 1 THEN "loopback" ELSE IF g[8] = 0 THEN "unspecified" ELSE "global")
+  ELSE IF (\A i \in 1..5 : g[i] = 0) /\ g[6] = 65535 THEN "mapped"
+  ELSE IF g[1] \div 64 = 1018 THEN "linklocal"
+  ELSE IF g[1] \div 512 = 126 THEN "ula"
+  ELSE IF g[1] \div 256 = 255 THEN "multicast"
+  ELSE IF g[1] = 8193 /\ g[2] = 3512 THEN "documentation"
+  ELSE "global"
+AddrClass(a) == (IF Len(a) = 5 THEN "ipv4" ELSE "ipv6_" \o V6Class(a))
+                \o (IF a[Len(a)] = 65535 THEN "_port_65535" ELSE "")
 =============================================================================
